@@ -561,13 +561,20 @@ def _quadrature_matrix(repo, res, ru, cq):
                 res.ob(key)
                 calls = []
 
-                def create_quadrature(cellname, degree, rule, elements, _c=calls):
-                    _c.append((cellname, degree, rule, plain(elements)))
-                    pts, wts = sample[cellname]
+                # element_interface.create_quadrature itself is interpreted (whatever its signature); basix.make_quadrature is the recording stub
+                def make_quadrature(ct, degree, rule=None, polyset_type=None, _c=calls):
+                    _c.append((ct, degree, rule, polyset_type))
+                    pts, wts = sample[ct]
                     return ([list(p_) for p_ in pts], list(wts))
 
                 it = Interp(repo, load_classes(repo), primary="ffcx.ir.representationutils")
-                it.overrides["create_quadrature"] = _PyCall(create_quadrature)
+                it.overrides["basix.make_quadrature"] = _PyCall(make_quadrature)
+                it.overrides["basix.PolysetType.standard"] = "PolysetType.standard"
+                it.overrides["basix.polyset_superset"] = _PyCall(lambda ct, a, b: a if a == b or b == "PolysetType.standard" else b)
+                it.overrides["basix.quadrature.string_to_type"] = _PyCall(lambda r: f"QuadratureType.{r}")
+                it.overrides["_CellType"] = {n_: n_ for n_ in sample}
+                it.overrides["np.ones"] = _PyCall(lambda shape, **k: [[]] if shape == (1, 0) else [Fr(1)] * (shape if isinstance(shape, int) else shape[0]))
+                it.overrides["np.float64"] = "float64"
                 it.overrides["np.array"] = _PyCall(lambda x, **k: plain(x))
                 it.overrides["np.asarray"] = _PyCall(lambda x, **k: plain(x))
 
@@ -591,15 +598,16 @@ def _quadrature_matrix(repo, res, ru, cq):
                 cell.f["facet_types"] = [mkcell(f_) for f_ in facets[cname]]
                 cell.f["ridge_types"] = [mkcell(r_) for r_ in ridges.get(cname, [])]
                 try:
-                    out = it.call_f(cq, [itype, cell, 3, "GLL", ["el"]], {"use_tensor_product": tp})
+                    out = it.call_f(cq, [itype, cell, 3, "GLL", [Node("Element", polyset_type="PolysetType.macroedge")]], {"use_tensor_product": tp})
                     pts, wts, tf = plain(out[0]), plain(out[1]), plain(out[2])
                 except Raised as e:
                     res.fail(key, f"create_quadrature_points_and_weights({itype!r}, {cname}, use_tensor_product={tp}) raises ({e.what})", ru.line(cq.node))
                     continue
                 ents = {"cell": [cname], "exterior_facet": facets[cname], "interior_facet": facets[cname], "vertex": ["vertex"],
                         "ridge": ridges.get(cname, []), "expression": []}[itype]
-                if any(c_[1:] != (3, "GLL", ["el"]) for c_ in calls):
-                    res.fail(key, f"the rule is not built for the requested degree / scheme / elements: create_quadrature called with {calls[:2]}", ru.line(cq.node))
+                if any(c_[1:] != (3, "QuadratureType.GLL", "PolysetType.macroedge") for c_ in calls):
+                    res.fail(key, f"the rule is not built for the requested degree (3) / scheme (GLL) / polyset of the elements (macroedge): basix.make_quadrature is called "
+                             f"with (cell, degree, rule, polyset) = {calls[:2]}", ru.line(cq.node))
                 ndir = {"quadrilateral": 2, "hexahedron": 3}.get(cname)
                 if itype == "cell" and tp and ndir:
                     ip, iw = sample["interval"]
@@ -622,6 +630,23 @@ def _quadrature_matrix(repo, res, ru, cq):
                 if dict(pts) != want_p or dict(wts) != want_w:
                     res.fail(key, f"({itype}, {cname}, use_tensor_product={tp}): rules for {sorted(dict(pts))} built from {[c_[0] for c_ in calls]}; "
                              f"the integration entities are {ents}, each with its own reference rule", ru.line(cq.node))
+
+
+@rule(
+    "QUAD-MATRIX",
+    ["C11", "C10", "C01"],
+    "create_quadrature_points_and_weights (with element_interface.create_quadrature) interpreted for every (integral type, cell, "
+    "use_tensor_product): basix is asked for the requested degree, scheme and the polyset of the argument elements for every integration "
+    "entity type, one rule each; tensor factors exist only for cell integrals on quadrilaterals / hexahedra with the option on, they are "
+    "one interval rule of the requested degree and scheme per direction and the points/weights are their Cartesian product",
+    min_instances=60,
+)
+def quad_matrix(repo, res):
+    ru = repo.mod("ffcx.ir.representationutils")
+    cq = ru.func("create_quadrature_points_and_weights")
+    res.functions.add(cq.key)
+    res.functions.add(repo.mod("ffcx.element_interface").func("create_quadrature").key)
+    _quadrature_matrix(repo, res, ru, cq)
 
 
 @rule(
@@ -666,9 +691,7 @@ def opt_gate(repo, res):
                          "rule, although tables get tensor factors only for elements with a tensor-product factorisation: with "
                          "sum_factorization=True an ordinary Q2 Laplacian on a quadrilateral dies with AssertionError instead of giving the "
                          "same tensor as without the option", am.line(n))
-    ru = repo.mod("ffcx.ir.representationutils")
-    cq = ru.func("create_quadrature_points_and_weights")
-    _quadrature_matrix(repo, res, ru, cq)
+    # which rule every (integral type, cell, use_tensor_product) gets: rule QUAD-MATRIX (create_quadrature_points_and_weights interpreted)
     rep = repo.mod("ffcx.ir.representation")
     # (the rule builder ignores the option for non-cell integrals - quadrature matrix above - so the caller need not filter)
     # ---- part = diagonal. Where the option acts, and that it acts on bilinear forms only, is decided by interpreting each of the five
